@@ -26,6 +26,7 @@
     onClose():    cleanup(); backoff.reset(); state = Disconnected; emit close
                   if !noReconnection && !skipReconnect { go reconnect(false) }
     Close():      state = Disconnected; skipReconnect = true; onClose(forced close); ...
+                  (socket.Disconnect() of the last active socket ends in Close() as well)
 >>
     The delay of each attempt is computed by [Backoff.duration] from the attempt counter as it is
     before the increment; the float-conversion and jitter oracles of that function arrive with the
@@ -93,6 +94,11 @@ Definition mstep (c : mcfg) (s : mst) (i : input) : list ev * mst :=
       then let '(e, s') := start_reconnect c (mkM Idle 0 (skip s)) in (EClose :: e, s')
       else ([EClose], mkM Idle 0 (skip s))
   | Idle, IClose | Conn, IClose => ([EClose], mkM Idle 0 true)
+  | ReconWait, IClose =>
+      (* Close() / socket.Disconnect() while reconnect() sleeps in its back-off delay: skipReconnect is
+         set, onClose resets the counter (in the code it was already incremented by duration()) and
+         announces close; the sleeping loop wakes up, sees skipReconnect and returns without an event *)
+      ([EClose], mkM Idle 0 true)
   | _, _ => ([], s)     (* input that does not apply in this phase: nothing happens *)
   end.
 
